@@ -113,6 +113,27 @@ ALPH = list("$.[]()?@*,:'\"\\!=<>&|-+0123456789eE abct_\n\tufnrl") + [
     "\\u0041", "\\uD83D\\uDE00", "$", "[?", "@.", "1.5", "-0", "01", "1e2", "0.0", "f0(", "TRUE", "Null", " ", "\r", "\\", "'", '"', "\\'", "!", "(", ")"]
 
 
+STRUCT = list("[](),?:.*!&|=<>@$'\" ")
+
+
+def mutate_struct(rng, q, k=None):
+    """mutations at the structural characters of a query: a bracket, parenthesis, comma, colon, quote ... duplicated, dropped, swapped for
+    another structural character, or a short structural suffix appended (stray closers after a complete construct)"""
+    q = list(q)
+    for _ in range(k or rng.randint(1, 2)):
+        pos = [i for i, ch in enumerate(q) if ch in STRUCT]
+        r = rng.random()
+        if r < 0.3 or not pos:
+            q += [rng.choice("])],),") for _ in range(rng.randint(1, 3))]
+        else:
+            i = rng.choice(pos)
+            if r < 0.5: q.insert(i, q[i])
+            elif r < 0.65: del q[i]
+            elif r < 0.85: q[i] = rng.choice(STRUCT)
+            else: q.insert(i + 1, rng.choice("])],(["))
+    return "".join(q)
+
+
 def mutate_text(rng, q, k=None):
     q = list(q)
     for _ in range(k or rng.randint(1, 2)):
